@@ -287,6 +287,12 @@ class Interp:
                 return len(c) > 0
             if cond.kind == "dict":
                 return len(cond.content) > 0
+            if cond.kind == "obj" and cond.cls is not None:
+                # truthiness of an instance of a repository class: __bool__, else __len__ != 0, else True
+                for dunder in ("__bool__", "__len__"):
+                    if dunder in cond.cls.methods:
+                        v = self.call_function(FuncVal(cond.cls.module, cond.cls.methods[dunder], bound=cond, cls=cond.cls), [], {})
+                        return self.decide(v if dunder == "__bool__" else sv.cmp("!=", v, 0))
             return True
         if isinstance(cond, str):
             return len(cond) > 0
